@@ -78,6 +78,7 @@ package section
 
 //@ func (p *programSplitter) readMeta() (s)
 //@   requires lineOK(p)
+//@   ensures [C13,C19] a-stored-line-is-the-line-as-written-beginning-where-its-position-says: forall k int {s[k]} :: 0 <= k && k < len(s) ==> s[k] != nil && arr(s[k].Text) == arr(p.content) && s[k].StartPos == filePos(p.file, off(s[k].Text) - off(p.content))
 //@   ensures lineOK(p)
 //@   ensures eof-is-final: old(p.eof) ==> p.eof
 //@   assigns p.lastComments, p.startOffset, p.offset, p.text, p.pos, p.eof, p.errors, elems(p.errors)
@@ -88,10 +89,12 @@ package section
 //@     invariant p.offset >= old(p.offset) && lineOK(p) && (old(p.eof) ==> p.eof)
 //@     invariant p.errors == old(p.errors)
 //@     invariant s.arr == 0 || fresh(s.arr)
+//@     invariant [C13,C19] a-stored-line-is-the-line-as-written-beginning-where-its-position-says: forall k int {s[k]} :: 0 <= k && k < len(s) ==> s[k] != nil && arr(s[k].Text) == arr(p.content) && s[k].StartPos == filePos(p.file, off(s[k].Text) - off(p.content))
 //@     decreases len(p.content) + 1 - p.offset + ite(p.eof, 0, 1)
 
 //@ func (p *programSplitter) readPatch() (s)
 //@   requires lineOK(p)
+//@   ensures [C13,C19] a-stored-line-is-the-line-as-written-beginning-where-its-position-says: forall k int {s[k]} :: 0 <= k && k < len(s) ==> s[k] != nil && arr(s[k].Text) == arr(p.content) && s[k].StartPos == filePos(p.file, off(s[k].Text) - off(p.content))
 //@   ensures lineOK(p)
 //@   ensures eof-is-final: old(p.eof) ==> p.eof
 //@   assigns p.lastComments, p.startOffset, p.offset, p.text, p.pos, p.eof
@@ -99,6 +102,7 @@ package section
 //@   loop 0
 //@     invariant p.offset >= old(p.offset) && lineOK(p) && (old(p.eof) ==> p.eof)
 //@     invariant s.arr == 0 || fresh(s.arr)
+//@     invariant [C13,C19] a-stored-line-is-the-line-as-written-beginning-where-its-position-says: forall k int {s[k]} :: 0 <= k && k < len(s) ==> s[k] != nil && arr(s[k].Text) == arr(p.content) && s[k].StartPos == filePos(p.file, off(s[k].Text) - off(p.content))
 //@     decreases len(p.content) + 1 - p.offset + ite(p.eof, 0, 1)
 
 // A change's description is what was remembered when its header line became current: the '#' lines
